@@ -6,9 +6,10 @@ Import ListNotations.
 Local Open Scope string_scope.
 
 (* ---------- the options as filters (specification) ---------- *)
-Definition is_H (element : text) : bool := text_eqb (trim element) (stext "H").
+(* a hydrogen record / row: one whose atom gets hydrogen as its element (Spec.PdbSpec.infer_element: the element text, else the name) *)
+Definition is_H (element name : text) : bool := match infer_element element name with Some e => Z.eqb e 1 | None => false end.
 Definition pdb_without_H (rs : list rec) : list rec :=
-  filter (fun r => match r with RAtom a => negb (is_H (r_element a)) | _ => true end) rs.
+  filter (fun r => match r with RAtom a => negb (is_H (r_element a) (r_name a)) | _ => true end) rs.
 Definition first_only {A} (on : bool) (l : list A) : list A := if on then firstn 1 l else l.
 Definition sx_filtered_pdb (opts : Z) (rs0 : list rec) : sx :=
   let dh := Z.testbit opts 0 in let fm := Z.testbit opts 1 in let ao := Z.testbit opts 2 in
@@ -18,7 +19,7 @@ Definition sx_filtered_pdb (opts : Z) (rs0 : list rec) : sx :=
    else SL (sx_meta (denote_id rs) (denote_remarks rs) (denote_cell rs)
                     (match denote_sg rs with Some sg => Symmetry_of sg | None => None end)
                     (denote_scale rs) (denote_origx rs) (denote_mtrix rs) ++ [sx_of_pdb sx_of_atom models])%list).
-Definition cif_without_H (rows : list crow) : list crow := filter (fun r => negb (is_H (w_type r))) rows.
+Definition cif_without_H (rows : list crow) : list crow := filter (fun r => negb (is_H (w_type r) (w_name r))) rows.
 Definition sx_filtered_cif (opts : Z) (d : cdoc) : sx :=
   let dh := Z.testbit opts 0 in let fm := Z.testbit opts 1 in let ao := Z.testbit opts 2 in
   let rows := if dh then cif_without_H (d_rows d) else d_rows d in
